@@ -562,7 +562,12 @@ def op_reveal(ctx, st, t, cli=False):
             launch.run_cli("reveal_plate", ["--screen", src, "--output", dst, "--plate-id"] + ids)
             new = Screen.load_h5(dst)
         else:
-            new = reveal_plates(live.screen, ids)
+            # the id collection comes as a list, a tuple, an integer array of either width, or a list of numpy
+            # integers (what np.unique / a policy returns): same plates either way
+            form = h_ids = sum(ids) % 5 if ids else 0
+            ids_arg = [list(ids), tuple(ids), np.array(ids, dtype=np.int64), np.array(ids, dtype=np.int32),
+                       [np.int64(i) for i in ids]][form]
+            new = reveal_plates(live.screen, ids_arg)
             dst = None
     except ValueError as e:
         ctx.log.ev("reveal-raised", "ValueError")
